@@ -123,10 +123,10 @@ type c38Phase struct {
 }
 
 type c38Program struct {
-	Limit      int
-	Reject     []bool // per fact: the getOperations filter rejects operations of this fact (like launch's known/in-state filter)
-	GateOps    int    // pause inside getOperations (widens the check-then-act window for a maker without lock)
-	Phases     []c38Phase
+	Limit   int
+	Reject  []bool // per fact: the getOperations filter rejects operations of this fact (like launch's known/in-state filter)
+	GateOps int    // pause inside getOperations (widens the check-then-act window for a maker without lock)
+	Phases  []c38Phase
 }
 
 func c38GenPos(t *rapid.T, label string, hot []c38Pos) c38Pos {
